@@ -305,7 +305,11 @@ class Check(PropertyCheck):
             bad('to_polygon_exception', ap)
         elif ap is not None:
             for p, pa, (sa, mg) in zip(case['pts'], ap, spec):
-                if mg >= threshold(p) and pa != sa:
+                # the polygon's vertices are centre + offset ROUNDED to the grid of doubles near the centre: far from the
+                # origin that rounding (an ulp of the coordinate) is not small against a tiny shape
+                big = max(abs(p[0]), abs(p[1]), 1.0)
+                thr_poly = max(threshold(p), Fraction(16 * 2.3e-16 * big / max(G.approx_size(dd), 1e-300)))
+                if mg >= thr_poly and pa != sa:
                     bad('to_polygon_membership_differs', f'point={p} polygon={pa} spec={sa} margin={float(mg):.3g}', point=p)
                     break
         return V
